@@ -32,7 +32,8 @@ class Unsupported(Exception):
 # ------------------------------------------------------------------------------------------------
 # events
 # ------------------------------------------------------------------------------------------------
-If = namedtuple("If", "cond then orelse line")
+If = namedtuple("If", "cond then orelse line fresh")
+If.__new__.__defaults__ = (True,)
 Loop = namedtuple("Loop", "lid iter target body carried line comp")
 Try = namedtuple("Try", "tid body handlers line")          # handlers: [Handler]
 Handler = namedtuple("Handler", "exc name body term ret line")
@@ -664,6 +665,9 @@ class Summariser:
             rest = stmts[i + 1:]
             if isinstance(st, ast.If):
                 cond = self.expr(st.test, events)
+                # does the test re-evaluate state here (calls / attribute or item reads), or only look at
+                # values computed earlier (plain names)?
+                fresh = any(isinstance(n, (ast.Call, ast.Attribute, ast.Subscript)) for n in ast.walk(st.test))
                 env0, f0 = dict(self.env), dict(self.fields)
                 if rest and _partial_exit(st):
                     # some (not all) paths of the arms leave the function: duplicate the continuation
@@ -677,7 +681,7 @@ class Summariser:
                     ev_e, term_e, ret_e = self.block(list(st.orelse) + list(rest))
                     self.facts.pop()
                     env_e, f_e = self.env, self.fields
-                    events.append(If(cond, ev_t, ev_e, st.lineno))
+                    events.append(If(cond, ev_t, ev_e, st.lineno, fresh))
                     if term_t and term_e:
                         return events, True, _gate_ret(cond, ret_t, ret_e)
                     if term_t:
@@ -699,23 +703,23 @@ class Summariser:
                 self.facts.pop()
                 env_e, f_e = self.env, self.fields
                 if term_t and term_e:
-                    events.append(If(cond, ev_t, ev_e, st.lineno))
+                    events.append(If(cond, ev_t, ev_e, st.lineno, fresh))
                     return events, True, _gate_ret(cond, ret_t, ret_e)
                 if term_t:
                     self.env, self.fields = env_e, f_e
                     self.facts.append(negate(cond))
                     ev_r, term_r, ret_r = self.block(rest)
                     self.facts.pop()
-                    events.append(If(cond, ev_t, ev_e + ev_r, st.lineno))
+                    events.append(If(cond, ev_t, ev_e + ev_r, st.lineno, fresh))
                     return events, term_r, _gate_ret(cond, ret_t, ret_r, True, term_r)
                 if term_e:
                     self.env, self.fields = env_t, f_t
                     self.facts.append(cond)
                     ev_r, term_r, ret_r = self.block(rest)
                     self.facts.pop()
-                    events.append(If(cond, ev_t + ev_r, ev_e, st.lineno))
+                    events.append(If(cond, ev_t + ev_r, ev_e, st.lineno, fresh))
                     return events, term_r, _gate_ret(cond, ret_r, ret_e, term_r, True)
-                events.append(If(cond, ev_t, ev_e, st.lineno))
+                events.append(If(cond, ev_t, ev_e, st.lineno, fresh))
                 self.env = self.merge(cond, env_t, env_e)
                 self.fields = self.merge(cond, f_t, f_e, field=True)
                 continue
@@ -1180,10 +1184,9 @@ class Summariser:
                 bound = self._bound_method_call(recv, args, dict(kwargs), events, e)
                 if bound is not None:
                     return bound
-                if recv[0] == "global" and not recv[1].startswith(("?", "builtins.")):
-                    ext = self._dotted_call(recv[1], args, kwargs, events, e)
-                    if ext is not None:
-                        return ext
+                val = self._call_value(recv, args, kwargs, events, e)
+                if val is not None:
+                    return val
                 res = ("res", self.site(e), "local:" + f.id, args, kwargs)
                 events.append(Call("local:" + f.id, None, recv, args, kwargs, res, line))
                 return res
@@ -1279,6 +1282,26 @@ class Summariser:
         res = ("res", self.site(e), "expr-call", (recv,) + args, kwargs)
         events.append(Call("expr", None, recv, args, kwargs, res, line))
         return res
+
+    def _call_value(self, recv, args, kwargs, events, e):
+        """Call of a local that holds a library function / package class / package function, or a
+        conditional choice between such (`cls = A if c else B; cls(...)`)."""
+        if recv[0] == "global" and not recv[1].startswith(("?", "builtins.")):
+            return self._dotted_call(recv[1], args, kwargs, events, e)
+        if recv[0] == "gate":
+            ok = all(x[0] == "global" and not x[1].startswith(("?", "builtins.")) for x in (recv[2], recv[3]))
+            if not ok:
+                return None
+            ev_t, ev_e = [], []
+            self.facts.append(recv[1])
+            a = self._dotted_call(recv[2][1], args, kwargs, ev_t, e)
+            self.facts.pop()
+            self.facts.append(negate(recv[1]))
+            b = self._dotted_call(recv[3][1], args, kwargs, ev_e, e)
+            self.facts.pop()
+            events.append(If(recv[1], ev_t, ev_e, e.lineno, False))
+            return gate(recv[1], a, b)
+        return None
 
     def _dotted_call(self, d, args, kwargs, events, e):
         """Call of a resolved dotted name (external library, package class or package function)."""
